@@ -4,7 +4,12 @@ import BarterModel.Model.Audit
 C10 driver: the EngineCommon protocol (`init`, `algo`, `ev ...`) plus
   `rep_dup`   re-deliver the last record to the replica (must be skipped)
   `rep_gap`   deliver a record two ahead of the last applied one (must be rejected)
+  `rep_old k` re-deliver the record of k events before the last one, unchanged (a record repeated later: skipped)
+  `rep_at s`  deliver the last record stamped with the absolute sequence s (0, an old number, far ahead);
+              s = replica sequence + 1 would be a forged valid successor: `bad-op`
   `runall sync|async`  the whole history through the run loop and a fresh replica
+  `runall sync|async <drop|dup|late|swap>:<first|mid|last|index>`  the same, the replica being fed through a
+              faulty transport (a record removed / repeated at once / repeated before the final one / swapped)
 Every processed event yields one audit record which is fed to the replica.
 `rec_ev` / `run_ev`: digest of the event a record carries (model: the tick's event; spec: the INPUT
 event of the op - "carrying that event"); `rec_out`: kinds of the outputs in the record (model only).
@@ -25,9 +30,11 @@ structure St where
   hypOk : Bool
   /-- digest of every INPUT event of the history, taken when it was handed to the engine -/
   digests : List String := []
+  /-- every record the engine produced, newest first (`rep_old`) -/
+  ticks : List Tick := []
 
 def emptyEng : Eng := ⟨false, [], [], [], 0⟩
-def St.empty : St := ⟨emptyEng, ⟨emptyEng, 0⟩, ⟨emptyEng, 0⟩, [], [], none, [], true, []⟩
+def St.empty : St := ⟨emptyEng, ⟨emptyEng, 0⟩, ⟨emptyEng, 0⟩, [], [], none, [], true, [], []⟩
 
 def obsAny (pfx : String) (e : Eng) : List String :=
   ((e.instruments.zipIdx.map fun (s, i) =>
@@ -108,7 +115,7 @@ def stepEv (s : St) (ev : Event) : St × List String :=
   let rep' := match res with | .applied r _ => r | _ => s.rep
   let s' : St := { s with eng := ⟨eng', ea.seq⟩, rep := rep', algoC := [], algoO := [],
                           lastTick := some tick, history := s.history ++ [(ev, ask)], hypOk := hyp,
-                          digests := s.digests ++ [eventDigest s.eng.eng ev] }
+                          digests := s.digests ++ [eventDigest s.eng.eng ev], ticks := tick :: s.ticks }
   (s', [ s!"seq {tick.seq}", "terminal " ++ fmtBool tick.terminal,
          -- what the RECORD carries: its event (digest against the state before it) and its outputs
          "rec_ev " ++ tickDigest s.eng.eng tick, "rec_out " ++ joinOr (tickOutputs tick),
@@ -118,19 +125,48 @@ def stepEv (s : St) (ev : Event) : St × List String :=
          -- the property evaluated on the model's two states
          "rep_sync " ++ fmtBool (strippedOrders "" eng' == strippedOrders "" rep'.state) ])
 
-def runAll (s : St) : List String :=
+/-- a fault of the transport between the audit channel and the replica (`runall <runner> <kind>:<pos>`):
+`drop` removes the record at `pos`, `dup` repeats it immediately, `late` repeats it just before the final
+record, `swap` exchanges it with its successor; `pos` = `first` | `mid` | `last` | an index (clamped).
+Second component: the fault only REPEATS records (nothing is lost). -/
+def mutateStream (m : String) (ts : List Tick) : Option (List Tick × Bool) :=
+  match m.splitOn ":" with
+  | [kind, pos] =>
+    let n := ts.length
+    let j? : Option Nat := match pos with
+      | "first" => some 0
+      | "mid" => some (n / 2)
+      | "last" => some (n - 1)
+      | k => k.toNat?.map fun k => min k (n - 1)
+    j?.bind fun j =>
+      match kind with
+      | "drop" => some (ts.eraseIdx j, false)
+      | "dup" => some (ts.take j ++ (ts[j]?).toList ++ ts.drop j, true)
+      | "late" => some (ts.take (n - 1) ++ (ts[j]?).toList ++ ts.drop (n - 1), true)
+      | "swap" =>
+        (match ts[j]?, ts[j + 1]? with
+          | some a, some b => some (ts.take j ++ [b, a] ++ ts.drop (j + 2), false)
+          | _, _ => some (ts, false))
+      | _ => none
+  | _ => none
+
+def runAll (s : St) (fault : Option String := none) : List String :=
   let (ea, ticks) := runWithAudit ⟨s.init, 1⟩ s.history
-  let repRes := (Replica.run ⟨s.init, 0⟩ ticks)
+  -- what the replica is fed: the records of the run, possibly through a faulty transport
+  let (fed, lossless) := match fault with
+    | none => (ticks, true)
+    | some m => (mutateStream m ticks).getD (ticks, true)
+  let repRes := (Replica.run ⟨s.init, 0⟩ fed)
   -- the state the replica reached (on `err`: where it stopped, as the real one)
-  let rep := match repRes with | .ok r => r | .error _ => replicaRunState ⟨s.init, 0⟩ ticks
+  let rep := match repRes with | .ok r => r | .error _ => replicaRunState ⟨s.init, 0⟩ fed
   [ "run_seqs " ++ joinOr (ticks.map fun t => toString t.seq),
     "run_terminal " ++ joinOr (ticks.map fun t => fmtBool t.terminal),
     "run_last " ++ lastKind ticks ] ++
   (tickDigests ⟨s.init, 1⟩ s.history ticks).map ("run_ev " ++ ·) ++
   [ (match repRes with | .ok _ => "run_rep ok" | .error _ => "run_rep err") ] ++
   obsAny "run_" ea.eng ++ obsAny "run_rep_" rep.state ++
-  [ "run_rep_rest_eq 1",
-    "run_rep_sync " ++ fmtBool (strippedOrders "" ea.eng == strippedOrders "" rep.state) ]
+  (if lossless then [ "run_rep_rest_eq 1" ] else []) ++
+  [ "run_rep_sync " ++ fmtBool (strippedOrders "" ea.eng == strippedOrders "" rep.state) ]
 
 /-- what the property says the records of the run carry: the input events of the history, in order, as
 many as there are records (the model gives the count), then the feed-ended record if the run ended by
@@ -140,6 +176,16 @@ def runEvSpec (s : St) : List String :=
   let n := (ticks.filter fun t => match t with | .process .. => true | .feedEnded _ => false).length
   (s.digests.take n).map ("run_ev " ++ ·) ++
   (match ticks.getLast? with | some (.feedEnded _) => ["run_ev feed-ended"] | _ => [])
+
+/-- `rep_old` / `rep_at`: a record delivered to the replica outside the engine's own order. A record that
+would be the valid successor of the last applied one is a forged stream, not a faulty one: `bad-op`. -/
+def feedForged (s : St) : Option Tick → St × List String
+  | none => (s, ["no-tick"])
+  | some t =>
+    if t.seq == s.rep.seq + 1 then (s, ["bad-op"]) else
+    let res := s.rep.step t
+    let rep' := match res with | .applied r _ => r | _ => s.rep
+    ({ s with rep := rep' }, [ "rep_step " ++ stepName res, s!"rep_seq {rep'.seq}" ] ++ obsAny "rep_" rep'.state)
 
 def model : Drv St where
   init := St.empty
@@ -181,7 +227,21 @@ def model : Drv St where
         let res := s.rep.step t'
         let rep' := match res with | .applied r _ => r | _ => s.rep
         ({ s with rep := rep' }, [ "rep_step " ++ stepName res, s!"rep_seq {rep'.seq}" ] ++ obsAny "rep_" rep'.state)
+    | ["rep_old", k] =>
+      match k.toNat? with
+      | none => (s, ["bad-op"])
+      | some k => feedForged s (s.ticks[k]?)
+    | ["rep_at", q] =>
+      match q.toNat? with
+      | none => (s, ["bad-op"])
+      | some q => feedForged s (s.lastTick.map fun t => match t with
+          | .process _ ev a => Tick.process q ev a
+          | .feedEnded _ => Tick.feedEnded q)
     | ["runall", _] => (s, runAll s)
+    | ["runall", _, m] =>
+      match mutateStream m [] with
+      | none => (s, ["bad-op"])
+      | some _ => (s, runAll s (some m))
     | _ => (s, ["bad-op"])
 
 /-- Spec view: sequence numbers, terminal flags, the event each record carries (`rec_ev` / `run_ev`: the
@@ -211,7 +271,11 @@ def spec : Drv St where
         ((obsAny "rep_" s'.eng.eng).filter fun l => !(l.startsWith "rep_ord")) ++
         (if s'.hypOk then strippedOrders "rep_" s'.eng.eng ++ ["rep_sync 1"] else [])
       else if toks.head? == some "runall" && base.any (fun l => l.startsWith "run_seqs") then
-        runEvSpec s ++ (if s.hypOk then ["run_rep_sync 1"] else [])
+        -- a transport that only repeats records loses nothing: the replica must still end equal
+        let lossless := match toks with
+          | [_, _, m] => ((mutateStream m []).map (·.2)).getD false
+          | _ => true
+        runEvSpec s ++ (if s.hypOk && lossless then ["run_rep_sync 1"] else [])
       else []
     (s', base ++ extra)
 
